@@ -268,8 +268,12 @@ def _b2_c04(seed):
     tol = 0.01
     for _ in range(6):
         outlines = [rand_polygon(rnd, 7)]
-        if rnd.random() < 0.3:
-            outlines.append([(x + 60.0, y) for x, y in rand_polygon(rnd, 5)])
+        if rnd.random() < 0.45:
+            dx, dy = rnd.choice([(60.0, 0.0), (60.0, 25.0), (0.0, 70.0), (55.0, 60.0)])
+            small = [(round(0.5 * x + dx, 3), round(0.5 * y + dy, 3)) for x, y in rand_polygon(rnd, 5)]
+            outlines.append(small)
+            if rnd.random() < 0.5:
+                outlines.reverse()         # the outline that reaches the largest x / y is not always the last one
         nogos = []
         if rnd.random() < 0.6:
             cx = sum(p[0] for p in outlines[0]) / len(outlines[0])
@@ -292,8 +296,11 @@ def _b2_c04(seed):
             dom, desc = polygonal_land_constraint(b_min, b_max_x, b_max_y, prop, ng)
         except ValueError:
             continue    # an empty list after the cut (reorder_domain on nothing): lots too thin for any borehole
+        # the grid spans [0, max x] x [0, max y] over ALL vertices of ALL outlines - computed here, not with the library's helper
+        length, width = max(p[0] for o in outlines for p in o), max(p[1] for o in outlines for p in o)
         rect = determine_largest_rectangle(prop)
-        length, width = max(p[0] for p in rect), max(p[1] for p in rect)
+        if (max(p[0] for p in rect), max(p[1] for p in rect)) != (length, width) or (min(p[0] for p in rect), min(p[1] for p in rect)) != (min(p[0] for o in outlines for p in o), min(p[1] for o in outlines for p in o)):
+            bad.append({"what": "determine_largest_rectangle is not the bounding rectangle of all property outlines", "rect": [list(map(float, p)) for p in rect], "outlines": outlines})
         raw, _ = bi_rectangle_nested(length, width, b_min, b_max_x, b_max_y)
         fo = [[(Fraction(str(x)), Fraction(str(y))) for x, y in o] for o in outlines]
         fn = [[(Fraction(str(x)), Fraction(str(y))) for x, y in o] for o in nogos]
